@@ -250,9 +250,11 @@ func saveESDTNFTToken(
 		return nil, err
 	}
 
-	// an entry without tokens is removed, unless it still carries the holder's properties (frozen flag)
+	// an entry without tokens is removed, unless it is a fungible entry that still carries the
+	// holder's properties (frozen flag)
 	isValueZero := esdtData.Value.Cmp(zero) == 0
-	if esdtData.Value.Cmp(zero) < 0 || (isValueZero && arePropertiesEmpty(esdtData.Properties)) {
+	isCarrier := esdtData.TokenMetaData == nil && !arePropertiesEmpty(esdtData.Properties)
+	if esdtData.Value.Cmp(zero) < 0 || (isValueZero && !isCarrier) {
 		return nil, acnt.AccountDataHandler().SaveKeyValue(esdtNFTTokenKey, nil)
 	}
 
